@@ -316,7 +316,7 @@ theorem history_refines_vec (cfg : Cfg) (v ty : Nat) (ops : List Refine.VOp) (w 
 /-- … starting from wherever a history of core operations under arbitrary fault injection has led -/
 theorem reachable_worlds_are_related (cfg : Cfg) (w : World) (hr : Hist.Reach cfg w) (hf : w.fault = none) (v : Nat)
     (d : VecSt) (hv : w.vecs[v]? = some d) (hl : d.live = true) :
-    ∃ items, Refine.Rel (fun u => w.vecs[u]?) v d.ty w ⟨items, w.created, d.cap, !VecSt.resizable d.bk⟩ :=
+    ∃ items, Refine.Rel (fun u => w.vecs[u]?) v d.ty w ⟨items, w.created, d.cap, !VecSt.resizable d.bk, d.cloneable⟩ :=
   Refine.rel_of_reach cfg w hr hf v d hv hl
 
 /-- … and touches no other vector: after any history on `v` every other vector of the world is what it was -/
@@ -332,7 +332,7 @@ changes -/
 theorem reachable_history_refines (cfg : Cfg) (w : World) (hr : Hist.Reach cfg w) (hf : w.fault = none) (v : Nat)
     (d : VecSt) (hv : w.vecs[v]? = some d) (hl : d.live = true) (ops : List Refine.VOp)
     (hall : ∀ op ∈ ops, op.Allowed (!VecSt.resizable d.bk)) :
-    ∃ items s', Refine.Spec.Steps ⟨items, w.created, d.cap, !VecSt.resizable d.bk⟩ ops s' ∧
+    ∃ items s', Refine.Spec.Steps ⟨items, w.created, d.cap, !VecSt.resizable d.bk, d.cloneable⟩ ops s' ∧
       Refine.Rel (fun u => w.vecs[u]?) v d.ty (Refine.runOps cfg v d.ty w ops) s' ∧
       ∀ u, u ≠ v → (Refine.runOps cfg v d.ty w ops).vecs[u]? = w.vecs[u]? :=
   Refine.reachable_history_refines cfg w hr hf v d hv hl ops hall
@@ -347,6 +347,24 @@ theorem all_vectors_refine (cfg : Cfg) (w : World) (hr : Hist.Reach cfg w) (hf :
         ∃ ms', RefineMulti.MSpec.Steps ms ops ms' ∧ RefineMulti.MRel (RefineMulti.mrun cfg w ops) ms') := by
   obtain ⟨ms, hrel⟩ := RefineMulti.mrel_of_reach cfg w hr hf
   exact ⟨ms, hrel, fun hall => RefineMulti.mhistory_refines cfg ops w ms hrel hall⟩
+
+/-- **whole life cycles** (Props/RefineMulti.lean): every well-typed script over any number of vectors - `new`, every
+operation of the refinement on any of them, `clone()`, `u.push(v.remove(i))`, dropping a vector - refines the abstract
+machine `AStep`, from any world that shows an abstract state -/
+theorem life_cycles_refine (cfg : Cfg) (ops : List RefineMulti.AOp) (w : World) (ms : RefineMulti.MSpec)
+    (h : RefineMulti.MRel w ms) (hsafe : RefineMulti.Safe cfg ms ops) :
+    ∃ ms', RefineMulti.ASteps cfg ms ops ms' ∧ RefineMulti.MRel (RefineMulti.arun cfg w ops) ms' :=
+  RefineMulti.life_cycles_refine cfg ops w ms h hsafe
+
+/-- … and without any assumption on the script: every script refines the abstract machine up to the first step that is
+ill-typed in the abstract state reached (a dropped or missing vector, the same vector twice, an operation its storage
+does not have, `clone()` without `Cloneable`) -/
+theorem life_cycles_refine_or_stuck (cfg : Cfg) (ops : List RefineMulti.AOp) (w : World) (ms : RefineMulti.MSpec)
+    (h : RefineMulti.MRel w ms) :
+    (∃ ms', RefineMulti.ASteps cfg ms ops ms' ∧ RefineMulti.MRel (RefineMulti.arun cfg w ops) ms') ∨
+    (∃ pre op rest ms1, ops = pre ++ op :: rest ∧ RefineMulti.ASteps cfg ms pre ms1 ∧
+      RefineMulti.MRel (RefineMulti.arun cfg w pre) ms1 ∧ ¬ RefineMulti.AOk ms1 op) :=
+  RefineMulti.life_cycles_refine_or_stuck cfg ops w ms h
 
 end C01
 end AnyVec
